@@ -311,7 +311,7 @@ def classify(res, rundir):
     fails = []
     if os.path.isdir(faildir):
         for fn in os.listdir(faildir):
-            if fn.endswith("-" + res["name"] + ".json"):
+            if fn.endswith("-" + res["name"] + ".json") and not fn.startswith("journal-"):
                 fails.append(os.path.join(faildir, fn))
     if res["rc"] == 0:
         return "ok", [], ""
@@ -450,6 +450,7 @@ def main():
             results.append(f.result())
 
     violations = []
+    other_prop_hits = []
     known_lines = []
     os.makedirs(REPLAYDIR, exist_ok=True)
     umap = {u["name"]: u for u in units}
@@ -465,6 +466,11 @@ def main():
             infra.append("%s: %s (see %s)" % (res["name"], note, res["out"]))
             continue
         outtxt = open(res["out"], errors="replace").read()
+        jp = os.path.join(rundir, "fail", "journal-%s.json" % res["name"])
+        if status == "crash" and os.path.exists(jp):
+            # the process died inside a journalled case: that case is the culprit
+            fails = [jp]
+            status = "fail"
         if status == "crash":
             # the process died (or the test failed) without leaving a case file: the output is the replay
             doc = {"property": pid, "facet": (u.get("facets") or [u["name"]])[0], "unit": u["name"],
@@ -485,6 +491,11 @@ def main():
                 if k and re.search(k.get("match", re.escape(k["key"])), msg + "\n" + outtxt):
                     known_lines.append("KNOWN-FINDING: property=%s %s" % (pid, k["what"]))
                     continue
+            fprop = str(doc.get("facet", "")).split("/")[0]
+            if re.fullmatch(r"C\d\d", fprop) and fprop != pid and not replay:
+                log("note: the shared harness hit a violation of %s (%s); it is reported by ./check %s, not by this check" % (fprop, msg[:200].replace("\n", " "), fprop))
+                other_prop_hits.append(fprop)
+                continue
             h = hashlib.sha1(json.dumps(doc.get("case", doc.get("output_tail", "")), sort_keys=True).encode()).hexdigest()[:10]
             dest = os.path.join(REPLAYDIR, "%s-%s-%s.json" % (pid, re.sub(r"[^A-Za-z0-9_-]", "_", str(doc.get("facet"))), h))
             if replay and os.path.abspath(dest) == replay:
@@ -494,6 +505,10 @@ def main():
             violations.append((dest, msg))
 
     facets = merge_stats(rundir)
+    # a shared harness run records facets of several properties: this property's evidence is its own facets only
+    own = {n: f for n, f in facets.items() if n.startswith(pid + "/") or n.split("/")[0] in prop.get("extra_facet_prefixes", [])}
+    if own:
+        facets = own
     evaluations = sum(f["evaluations"] for f in facets.values())
     distinct = sum(f.get("distinct_nontrivial", 0) for f in facets.values())
     samples = []
